@@ -52,8 +52,12 @@ RULE = ("histories over a copy of the standard store. Deterministic part: the C1
         "certificates, plug-ins, credentials, versions, chunk schedules, and client call sequences "
         "with faults. non-trivial = at least one failure (failed batch item, request-level error, "
         "exception escaping the message loop, client-side failure) happened in an exchange whose "
-        "request carried a canary or addressed an object storing one; histogram: nt-fail:<class> and "
-        "canary-in-flight-at-failure:<kind> count those, item:<reason> every batch item")
+        "bytes on the wire (request as sent, response as read by the client) contained at least one "
+        "8-byte window of a secret of the case, or - when the request got as far as an operation - "
+        "that addressed an object storing one; histogram: nt-fail:<class> counts such exchanges per "
+        "failure class, canary-in-flight-at-failure:<kind> histories per secret kind, item:<reason> "
+        "every batch item; three histories run with DEBUG switched on as a control that records "
+        "below INFO (which do contain every frame in hex) are seen and left out of the verdict")
 ASSUMPTIONS = [
     "'default level': the 'kmip' logger hierarchy is at INFO (KmipServer sets 'kmip.server' to its "
     "default logging_level INFO; the same level is taken for the client loggers); the root logger "
@@ -67,8 +71,12 @@ ASSUMPTIONS = [
     "certificates, signatures and MACs are not secrets",
     "a leak of fewer than 8 consecutive secret bytes (16 for RSA private numbers) is not detected",
     "Result Messages are read with vlib.ttlvref from the bytes the session sent",
+    "the scanner is self-checked at the start of every run (each encoding form of a planted secret "
+    "must be found, clean text and a short frame excerpt must not be flagged)",
+    "the C13 General-Failure triggers are read from known/C13-*.json when the cases are generated "
+    "(open and fixed ones alike); the replay specs embed the resulting requests",
 ]
-SHRINK_BUDGET = 80
+SHRINK_BUDGET = 40
 
 SECRET_TYPES = {"SymmetricKey": "key-symmetric", "SplitKey": "key-split", "SecretData": "secret-data",
                 "OpaqueData": "opaque"}
